@@ -140,8 +140,8 @@ class Pool:
                 w.kill()
 
         threads = [threading.Thread(target=serve, args=(q,), daemon=True) for q in queues if q]
-        # expected hangs run concurrently with everything else, at most 4 at a time
-        sem = threading.Semaphore(4)
+        # expected hangs run concurrently with everything else, at most 8 at a time
+        sem = threading.Semaphore(8)
 
         def guarded(i):
             with sem:
